@@ -258,13 +258,13 @@ Proof.
   - (* Start *) destruct sp; exec; unfold RInv; cbn; (split; [split; assumption | repeat constructor]).
   - (* AttemptOk *) destruct a; exec; unfold RInv; cbn; (split; [split; assumption | repeat constructor]).
   - (* AttemptFail *) cbn [z_bounded] in Hz. destruct Hz as [Hz1 Hz2].
-    destruct a; exec; [|unfold RInv; cbn; (split; [split; assumption | repeat constructor])].
     destruct (mu_ok Zmax d Hd) as [M0 M1].
-    destruct (q_truthy jitter); exec; unfold RInv; cbn.
-    + pose proof (jitter_in_range Zmax z _ HZ HJ Hz1 Hz2 M0 M1) as R.
-      split; [split; exact R | constructor; [exact R | constructor]].
-    + pose proof (in_range_small Zmax _ HZ M0 M1) as R.
-      split; [split; exact R | constructor; [exact R | constructor]].
+    pose proof (jitter_in_range Zmax z _ HZ HJ Hz1 Hz2 M0 M1) as R.
+    pose proof (in_range_small Zmax _ HZ M0 M1) as R'.
+    (* written so that it does not matter where the _active guards sit *)
+    destruct a; exec; destruct (q_truthy jitter); exec; unfold RInv; cbn [fst snd delay timer]; split;
+      try (split; first [assumption | exact R | exact R' | exact I]);
+      first [constructor; [first [exact R | exact R'] | constructor] | constructor].
   - (* Lost *) destruct a; exec; unfold RInv; cbn.
     + split; [split; exact Hini | constructor; [exact Hini | constructor]].
     + split; [split; assumption | repeat constructor].
